@@ -77,3 +77,14 @@ Proof.
   unfold ph_re, ph_im. rewrite Rmult_0_r, cos_0, sin_0. split; ring.
 Qed.
 Print Assumptions C17_charge_charge_evolution.
+
+(* a hopping generator a†_p a_q - a†_q a_p acts on a determinant pair as a signed swap: if a†_p a_q d = s d' then
+   a†_q a_p d' = s d with the SAME sign (sinv of a string and its adjoint), so on span{d, d'} the generator is
+   s [[0, -1], [1, 0]] and exp(theta G) is the plane rotation of C02_block_* - the structure every Givens step uses;
+   any two positions, any determinant length *)
+From FQE Require Import Car Fock.
+Theorem C17_hop_is_signed_swap : forall (p q : nat) (d d' : det) (s : bool),
+  string_fn [mkop p true; mkop q false] d = Some (s, d') <->
+  string_fn [mkop q true; mkop p false] d' = Some (s, d).
+Proof. intros p q d d' s. exact (sinv_string [mkop p true; mkop q false] d s d'). Qed.
+Print Assumptions C17_hop_is_signed_swap.
